@@ -80,7 +80,7 @@ Definition ack_frame (i : N) : oframe := mkOFrame (mkFrame 0 T_KeepAliveAck i 0 
 
 Theorem ack_not_blocked : forall cfg s i q,
   writer s = WTop \/ writer s = WInner -> ackq s = i :: q ->
-  writer (step cfg s WTakeAck) = WHolding (ack_frame i) /\ ackq (step cfg s WTakeAck) = q /\
+  writer (step cfg s WTakeAck) = WHolding (stamp_o cfg (version s) (ack_frame i)) /\ ackq (step cfg s WTakeAck) = q /\
   awaiting (step cfg s WTakeAck) = awaiting s /\ callers (step cfg s WTakeAck) = callers s /\
   phase (step cfg s WTakeAck) = phase s.
 Proof.
@@ -88,14 +88,14 @@ Proof.
   destruct Hw as [Hw|Hw]; rewrite Hw, Hq; st_simpl_goal; repeat split; reflexivity.
 Qed.
 
-Theorem ack_written_next : forall cfg s i,
-  writer s = WHolding (ack_frame i) ->
-  out (step cfg s WWriteHdr) = out s ++ [stamp_o cfg (version s) (ack_frame i)] /\
+Theorem ack_written_next : forall cfg s v i,
+  writer s = WHolding (stamp_o cfg v (ack_frame i)) ->
+  out (step cfg s WWriteHdr) = out s ++ [stamp_o cfg v (ack_frame i)] /\
   writer (step cfg s WWriteHdr) = WTop /\
-  f_id (o_frame (stamp_o cfg (version s) (ack_frame i))) = i /\
-  f_typ (o_frame (stamp_o cfg (version s) (ack_frame i))) = T_KeepAliveAck.
+  f_id (o_frame (stamp_o cfg v (ack_frame i))) = i /\
+  f_typ (o_frame (stamp_o cfg v (ack_frame i))) = T_KeepAliveAck.
 Proof.
-  intros cfg s i Hw. cbn [step]. unfold step_wwritehdr. rewrite Hw. cbn. repeat split; reflexivity.
+  intros cfg s v i Hw. cbn [step]. unfold step_wwritehdr. rewrite Hw. cbn. repeat split; reflexivity.
 Qed.
 
 (* ---------------- the log is the sequence of keep-alives received ---------------- *)
